@@ -115,8 +115,10 @@ func (b *Backend) MarkAggregator(targetEpoch common.Epoch, aggregator common.Val
 	b.mark("Aggregator", "", uint64(targetEpoch), uint64(aggregator))
 }
 
-func (b *Backend) SeenExit(index common.ValidatorIndex) bool { return b.query("Exit", "", uint64(index)) }
-func (b *Backend) MarkExit(index common.ValidatorIndex)      { b.mark("Exit", "", uint64(index)) }
+func (b *Backend) SeenExit(index common.ValidatorIndex) bool {
+	return b.query("Exit", "", uint64(index))
+}
+func (b *Backend) MarkExit(index common.ValidatorIndex) { b.mark("Exit", "", uint64(index)) }
 
 func (b *Backend) SeenProposerSlashing(proposer common.ValidatorIndex) bool {
 	return b.query("ProposerSlashing", "", uint64(proposer))
